@@ -15,5 +15,6 @@ CONSTANTS
   FixDropBound = TRUE
   FixDeriveGuards = TRUE
   FixLateTrack = TRUE
+  FixDeleteOnAccept = FALSE
 INVARIANTS NoPanic Listed Bounded TypeOK
 PROPERTIES NewestMono
